@@ -11,6 +11,7 @@ spelling, any SUPERSET of the needed parentheses, implicit products and calls (`
 -/
 import Lean
 import Rooc.Proofs.Render
+import Rooc.Proofs.LexSpell
 namespace Rooc.Props.C09
 open Rooc Rooc.Syntax Rooc.Syntax.Doc Rooc.Syntax.Proofs
 
@@ -149,6 +150,25 @@ theorem keyword_prefix_ident_counterexample :
   simp [parseToks, parseFuel, parseExp, collect, optUnary, unRule_word (w := "truex") (by decide), leaf, wordLeaf, hb,
     collectLoop, binRule, ruleOfTok, Tok.opSpelling, Gen.binaryOpAlts, spells, Gen.opSpellings, prattParse,
     expr, nud, loop, lbp]
+
+/-! ### from tokens to text -/
+
+/-- **Lexer round trip**: a token sequence written with single spaces (`spell`) is cut back into itself. -/
+theorem lexer_roundtrip (ts : List Tok) (h : ∀ t ∈ ts, TokOK t) : lex (spell ts) = .ok ts := lex_spell ts h
+
+/-- **`parseText (text of (render t)) = t`**: the minimal-parenthesis rendering of every tree with plain
+names, written as text, is read back as that tree (lexer + PEG fragment + Pratt loop). -/
+theorem parse_print_text (alias : Bool) (t : PExp) (h : WF t) (ht : TextOK t) :
+    parseText (spell (render alias t)) = .ok t := by
+  simp only [parseText, lex_spell _ (render_tokOK alias t ht), parse_print alias t h]
+
+example : TextOK (.bin .sub (.var "x") (.bin .sub (.un .neg (.var "y")) (.bin .mul (.int 2) (.call "f" [.var "z", .num "2.5"])))) := by
+  have hx : plainWord "x".toList = true := by decide
+  have hy : plainWord "y".toList = true := by decide
+  have hz : plainWord "z".toList = true := by decide
+  have hf : plainWord "f".toList = true := by decide
+  have hnum : FloatParts "2.5" := ⟨['2'], ['5'], by decide, by decide, by decide, by decide, by decide⟩
+  exact ⟨hx, hy, trivial, hf, by decide, hz, hnum, trivial⟩
 
 /-! ### the laws named in the property text, on the TEXTS themselves (`parseText` = lexer + `parseToks`) -/
 
